@@ -529,3 +529,110 @@ pub fn with_cuts(r: &mut Rng, evs: &[TracingEvent], cut_percent: u64, lose_perce
     }
     steps
 }
+
+// ---------------------------------------------------------------------------------------------
+// emitting history cases
+
+use crate::out::Sink;
+
+pub fn hist_case(sink: &mut Sink, judge_fn: &str, idx: u64, kind: &str, steps: &[Step], nonce: &str) {
+    if !sink.wants(idx) {
+        return;
+    }
+    let obs = run_history(steps, nonce);
+    let input = csteps(steps);
+    intern_begin();
+    let judge = format!("{judge_fn} {} {}", csteps(steps), cobss(&obs));
+    let judge = intern_wrap(&judge);
+    let mut rejected = 0;
+    let mut accepted = 0;
+    for o in &obs {
+        match o {
+            Obs::Recv(Outcome::Accepted, ..) => accepted += 1,
+            Obs::Recv(Outcome::Panicked, ..) => sink.bump("outcome:panicked"),
+            Obs::Recv(Outcome::UnknownMeta(_), ..) => { rejected += 1; sink.bump("outcome:unknown_meta") }
+            Obs::Recv(Outcome::UnknownSpan(_), ..) => { rejected += 1; sink.bump("outcome:unknown_span") }
+            Obs::Recv(Outcome::TooMany(_), ..) => { rejected += 1; sink.bump("outcome:too_many") }
+            Obs::Recv(Outcome::OtherError(_), ..) => { rejected += 1; sink.bump("outcome:other") }
+            Obs::Persist(..) => sink.bump("step:persist"),
+            Obs::Drop(..) => sink.bump("step:drop"),
+        }
+    }
+    sink.bump_by("outcome:accepted", accepted);
+    sink.bump_by("steps:total", steps.len() as u64);
+    for s in steps {
+        if let Step::Recv(e) = s {
+            sink.bump(match e {
+                TracingEvent::NewCallSite { .. } => "ev:new_call_site",
+                TracingEvent::NewSpan { .. } => "ev:new_span",
+                TracingEvent::FollowsFrom { .. } => "ev:follows_from",
+                TracingEvent::SpanEntered { .. } => "ev:entered",
+                TracingEvent::SpanExited { .. } => "ev:exited",
+                TracingEvent::SpanCloned { .. } => "ev:cloned",
+                TracingEvent::SpanDropped { .. } => "ev:dropped",
+                TracingEvent::ValuesRecorded { .. } => "ev:values_recorded",
+                TracingEvent::NewEvent { .. } => "ev:new_event",
+                _ => "ev:other",
+            });
+        }
+    }
+    // non-trivial: at least one accepted and one rejected event, or a persist/drop step
+    let nontrivial = (accepted > 0 && rejected > 0) || steps.iter().any(|s| !matches!(s, Step::Recv(_)));
+    sink.case(idx, kind, &judge, &input, nontrivial, || serde_json::json!({ "steps": csteps(steps) }));
+}
+
+pub fn vals(range: std::ops::Range<usize>) -> TracedValues<String> {
+    range.map(|i| (format!("f{i}"), tracing_tunnel::TracedValue::from(i as i64))).collect()
+}
+
+/// hand-written histories: the repaired defects first (they must stay repaired)
+pub fn corpus(nonce: &str) -> Vec<Vec<Step>> {
+    let span_cs = |name: &str, n: usize| call_site(CallSiteKind::Span, nonce, name, n, false);
+    let r = Step::Recv;
+    vec![
+        // F2: restored span with > 32 accumulated values is entered after the host lost its spans
+        vec![
+            r(TracingEvent::NewCallSite { id: 0, data: span_cs("f2", 40) }),
+            r(TracingEvent::NewSpan { id: 1, parent_id: None, metadata_id: 0, values: vals(0..20) }),
+            r(TracingEvent::ValuesRecorded { id: 1, values: vals(20..40) }),
+            Step::Persist { keep: false },
+            r(TracingEvent::SpanEntered { id: 1 }),
+            r(TracingEvent::SpanExited { id: 1 }),
+            r(TracingEvent::SpanDropped { id: 1 }),
+        ],
+        // F3: child of an already-dropped explicit parent entered after a host restart
+        vec![
+            r(TracingEvent::NewCallSite { id: 0, data: span_cs("f3", 1) }),
+            r(TracingEvent::NewSpan { id: 1, parent_id: None, metadata_id: 0, values: vals(0..0) }),
+            r(TracingEvent::NewSpan { id: 2, parent_id: Some(1), metadata_id: 0, values: vals(0..1) }),
+            r(TracingEvent::SpanDropped { id: 1 }),
+            Step::Persist { keep: false },
+            r(TracingEvent::SpanEntered { id: 2 }),
+            r(TracingEvent::SpanExited { id: 2 }),
+        ],
+        // F4: re-entrant enter, then persist / drop
+        vec![
+            r(TracingEvent::NewCallSite { id: 0, data: span_cs("f4", 0) }),
+            r(TracingEvent::NewSpan { id: 1, parent_id: None, metadata_id: 0, values: vals(0..0) }),
+            r(TracingEvent::SpanEntered { id: 1 }),
+            r(TracingEvent::SpanEntered { id: 1 }),
+            Step::Persist { keep: true },
+            r(TracingEvent::SpanEntered { id: 1 }),
+            r(TracingEvent::SpanEntered { id: 1 }),
+            r(TracingEvent::SpanExited { id: 1 }),
+            Step::Drop,
+        ],
+        // bogus events on an empty receiver
+        vec![
+            r(TracingEvent::NewSpan { id: 1, parent_id: None, metadata_id: 5, values: vals(0..0) }),
+            r(TracingEvent::SpanEntered { id: 1 }),
+            r(TracingEvent::SpanExited { id: 1 }),
+            r(TracingEvent::SpanCloned { id: 1 }),
+            r(TracingEvent::SpanDropped { id: 1 }),
+            r(TracingEvent::ValuesRecorded { id: 1, values: vals(0..2) }),
+            r(TracingEvent::FollowsFrom { id: 1, follows_from: 2 }),
+            r(TracingEvent::NewEvent { metadata_id: 3, parent: None, values: vals(0..33) }),
+        ],
+    ]
+}
+
